@@ -27,6 +27,8 @@ class Client:
     'none' (path-insensitive: every CFG edge is feasible, no valuation is kept)"""
     track = 'all'
     fork_bools = False   # split the state at every assignment of an unknown value to a tracked bool local
+    relevant = None      # None = track every bool/pointer variable; else the set of variable keys worth tracking
+    relevant_preds = None  # None = remember every tested pure condition; else the set of fingerprints worth remembering
 
     def init(self, fn):
         return ()
@@ -295,12 +297,12 @@ class Run:
                 if el is not None and er is None:
                     return self.assume(r, el if same else (not el), vals, learned)
             if self._pure(nid):
-                vals[('p', self.fn.fp(nid))] = pol
+                self._setp(vals, nid, pol)
             learned.append((n, pol))
             return True
         if k == 'BinaryOperator' and n.get('op') in ('<', '<=', '>', '>='):
             if self._pure(nid):
-                vals[('p', self.fn.fp(nid))] = pol
+                self._setp(vals, nid, pol)
             learned.append((n, pol))
             return True
         if k == 'BinaryOperator' and n.get('op') == ',':
@@ -329,6 +331,9 @@ class Run:
             return self.assume(n['ch'][0], pol, vals, learned)
         if k in ('DeclRefExpr', 'MemberExpr'):
             key = self.varkey(n)
+            if key is not None and not self._rel(key):
+                learned.append((n, pol))
+                return True
             if key is not None:
                 vals[('v', key)] = pol
                 learned.append((n, pol))
@@ -340,10 +345,23 @@ class Run:
         if n.get('callee') is not None or k in ('BinaryOperator', 'CXXOperatorCallExpr'):
             learned.append((n, pol))
             if self._pure(nid):
-                vals[('p', self.fn.fp(nid))] = pol
+                self._setp(vals, nid, pol)
         return True
 
     # ---- writes ------------------------------------------------------------
+    def _setp(self, vals, nid, pol):
+        fp = self.fn.fp(nid)
+        if self._relp(fp):
+            vals[('p', fp)] = pol
+
+    def _rel(self, key):
+        r = self.client.relevant
+        return r is None or key in r
+
+    def _relp(self, fp):
+        r = self.client.relevant_preds
+        return r is None or fp in r
+
     def _invalidate(self, key, vals):
         vals.pop(('v', key), None)
         vals.pop(('d', key), None)
@@ -359,9 +377,13 @@ class Run:
 
     def _assign(self, key, rhs, vals, ty):
         self._invalidate(key, vals)
-        if rhs is None:
+        if rhs is None or not self._rel(key):
             return
         if not (is_boolish(ty) or is_ptrish(ty)):
+            # other types carry no truth value, but remembering the defining expression lets clients resolve
+            # e.g. a status enum local
+            if ty and ('Status' in ty or 'enum' in ty):
+                vals[('d', key)] = rhs
             return
         v = self.eval(rhs, vals)
         rn = self.strip(rhs)
